@@ -41,6 +41,43 @@ CHECKS = {
         note="Trusted: recording stand-in filters (free monoid), g++ 12 as the judge of the negative compile tests.",
         technique="TLA+ spec (ManagedFilter.tla) + TLC; spec->code replay of tick histories into Python and C++ runtimes",
     ),
+    "C03": dict(
+        category="model_checking",
+        text="TLC generates definitions with rectangular sensor sets (readings != states, calibration present) and computes every "
+             "Jacobian entry as Eval(Diff(tree, column)) keyed by (row name, column name); behaviours are replayed into "
+             "process_jacobian / control_jacobian / sensor_jacobian of the real filter with CSE off and on.",
+        design_ref="DESIGN.md section 4 C03",
+        note="Trusted: Diff/Eval in Expr.tla (exact), reference interpreter applied to the spec's derivative TREE for elementary functions.",
+        technique="TLA+ spec (Formak.tla JacEval/SensEval) + TLC simulation; spec->code replay into the Python EKF",
+    ),
+    "C04": dict(
+        category="model_checking",
+        text="TLC computes x' = f(x,u) and P' = G P G^T + V M V^T exactly (M assembled by control NAME with distinct noises) along "
+             "SetEstimate/Predict behaviours, checks symmetry/PSD of every covariance as an invariant, and the behaviours are replayed "
+             "into process_model (inputs unmodified, repeat call identical).",
+        design_ref="DESIGN.md section 4 C04",
+        note="Trusted: exact rational linear algebra (Linalg.tla); rational fragment only; SPD integer covariances.",
+        technique="TLA+ spec (Formak.tla Predict) + TLC simulation with invariants; spec->code replay into the Python EKF",
+    ),
+    "C05": dict(
+        category="model_checking",
+        text="TLC computes the Kalman correction exactly for sensors with 1-3 readings of unequal noise and checks on every state the "
+             "stated consequences (z = h(x) leaves x unchanged, P' symmetric PSD, P - P' PSD, S symmetric PD); behaviours are replayed "
+             "into sensor_model and state, covariance, recorded innovation and innovation covariance compared by name.",
+        design_ref="DESIGN.md section 4 C05",
+        note="Trusted: exact rational linear algebra incl. adjugate inverse (sizes 1-3); det S >= 1 conditioning window.",
+        technique="TLA+ spec (Formak.tla UpdateAccept) + TLC simulation with invariants; spec->code replay into the Python EKF",
+    ),
+    "C06": dict(
+        category="model_checking",
+        text="The gate is decided exactly in the spec ((nis-m)^2 > 2 m k^2 with nis-m > 0, no square root); UpdateReject leaves the "
+             "estimate unchanged and is never enabled with filtering disabled (invariant InvReject); behaviours with thresholds "
+             "k in {None, 1/2, 1, 3, 5} and readings on both sides of the boundary are replayed into the Python filter (bit-identical "
+             "estimate on discard, innovation still recorded).",
+        design_ref="DESIGN.md section 4 C06",
+        note="Trusted: exact rational arithmetic; ulp-level boundary agreement between implementations is the trace part (DESIGN 4 C06 d).",
+        technique="TLA+ spec (Formak.tla UpdateAccept/UpdateReject + Gate) + TLC; spec->code replay into Python (and C++) filters",
+    ),
 }
 
 NOT_YET = "check not built yet (work in progress; see DESIGN.md section 8 build order)"
